@@ -282,6 +282,29 @@ CLAIMS = {
    design="§6 C19"),
 }
 
+# later additions to the claim texts (kept as edits so that the history of each claim stays readable)
+_EDITS = [
+ ("C04", "plus the C03 bounds on the code's assignment model. That the code's duties equal the ladder, and that 0 <= H_net_ut <= H_net_actual on every row, is NOT proved: it is decided by the oracle",
+  "plus the C03 bounds on the code's assignment model. Code-shaped (about the model of _assign_utility / _maximise_utility_duty that is tied to the implementation): assign_respects_supply_level - for ANY profile, ANY utilities (isothermal or gliding) and any start, whenever the k-th utility in processing order receives a duty, the duty assigned so far stays within the load the profile holds at a row its supply level reaches; isothermal_level_takes_largest - on a strictly descending grid an isothermal level's duty is zero or EXACTLY the largest unassigned load over the valid intervals its level reaches (the ladder step NP(L) - acc). NOT proved: the target-temperature side of a gliding utility's profile (the Q_tt limit), hence 0 <= H_net_ut <= H_net_actual on every row for gliding utilities: decided by the oracle"),
+ ("C09", "ts_qr_formula. The LOWER bound (total-site targets >= the site's own direct integration targets) is NOT proved for the code (it needs feasibility of every zone's utility profile, C04); it and the per-utility sums are decided by the oracle",
+  "ts_qr_formula; ts_ge_di_of_feasible - the LOWER bound: for every site whose utility segments cover the site's net process deficit above every temperature (feasibility of the zones' utility profiles, C04) and close the balance (C03), total-site Qh and Qc are at least the site's own direct-integration targets, on any pair of admissible grids (through di_targets_exact, ts_qh_grid and the grid-to-every-temperature lemma deficit_le_of_grid); feasible_sum carries the feasibility hypothesis from the zones to the site. Whether the CODE's zone profiles are feasible is C04's question (a change that breaks it falsifies the hypothesis, not the theorem - seeded C09-glide-cap-max): the lower bound on the implementation and the per-utility sums are decided by the oracle"),
+ ("C14", "cascade_total (the cascade model returns targets with Qh >= 0 on every compatible grid for ANY streams, C01). Decided",
+  "cascade_total (the cascade model returns targets with Qh >= 0 on every compatible grid for ANY streams, C01), grid_rows_are_inputs (every row of the temperature grid is the 6-decimal rounding of an input temperature: the grid invents none) and pinch_temps_in_envelope (the reported pinch temperatures are rows of the grid, hence inside any envelope containing it). Decided"),
+ ("C14", "never-needed utilities, value-with-unit numbers, zone tree) x random",
+  "never-needed utilities, value-with-unit numbers, zone tree, a tree that is only its root, zero-duty streams and zones) x random"),
+ ("C14", "Five fix: commits;", "Six fix: commits;"),
+ ("C07", "profiles_monotone, profiles_ends. Specification layer",
+  "profiles_monotone, profiles_ends; closing_temperature_is_where_pocket_closes (the temperature closeInsert inserts is the point of the segment at which the curve takes the pocket's opening value again, and lies between the two rows). Specification layer"),
+ ("C18", "Oracle: 10 refrigerants x random",
+  "Oracle: refrigerants (half from 10 common ones, half from every fluid of the property library with a two-phase range above -60 C, 90+ fluids) x random"),
+]
+for _pid, _a, _b in _EDITS:
+    assert CLAIMS[_pid]["text"].count(_a) == 1, (_pid, _a[:60])
+    CLAIMS[_pid]["text"] = CLAIMS[_pid]["text"].replace(_a, _b)
+CLAIMS["C09"]["technique"] = ("Lean 4 proof (upper and lower bounds from the cascade closed form; lower bound conditional on zone feasibility) "
+                              "+ site-level oracle + correspondence of the site cascade")
+
+
 NOT_YET = "no check has been built for this property yet in this round (design in DESIGN.md §6); not a claim of inapplicability of the technique"
 
 def main():
